@@ -564,13 +564,27 @@ impl Version {
     pub fn with_moved(&self, ids: &[TableId], dest_level: usize) -> Self {
         let id = self.id + 1;
 
-        let affected_tables = self
-            .iter_tables()
-            .filter(|x| ids.contains(&x.id()))
-            .cloned()
+        // NOTE: Tables of different runs may overlap (and are not sorted relative to each other),
+        // so every source run is moved as a run of its own, in read order
+        let affected_runs = self
+            .levels
+            .iter()
+            .flat_map(|level| level.iter())
+            .filter_map(|run| {
+                Run::new(
+                    run.iter()
+                        .filter(|x| ids.contains(&x.id()))
+                        .cloned()
+                        .collect::<Vec<_>>(),
+                )
+            })
             .collect::<Vec<_>>();
 
-        assert_eq!(affected_tables.len(), ids.len(), "invalid table IDs");
+        assert_eq!(
+            affected_runs.iter().map(|run| run.len()).sum::<usize>(),
+            ids.len(),
+            "invalid table IDs",
+        );
 
         let mut levels = vec![];
 
@@ -588,9 +602,7 @@ impl Version {
                 .collect::<Vec<_>>();
 
             if level_idx == dest_level {
-                if let Some(run) = Run::new(affected_tables.clone()) {
-                    runs.insert(0, run);
-                }
+                runs.splice(0..0, affected_runs.iter().cloned());
             }
 
             let runs = optimize_runs(runs);
